@@ -403,7 +403,12 @@ func (t *tdExt) step(r *h.Report, done []string, f []string, preS, preB []regEnt
 	// a short timer that fired outside `fire` is a timing flake of the harness, not an observation
 	if f[0] != "fire" {
 		for c, res := range t.results() {
-			if sp := t.pend[c]; sp != nil && sp.short && !res.ok && !(len(f) > 2 && (f[0] == "approve" || f[0] == "deny") && f[2] == strconv.FormatUint(c, 10)) && f[0] != "wr" {
+			// (the step's OWN write is exempt: a verdict for it, or its own denial by the gate; a short timer of ANOTHER write
+			// that fires while a `wr` step runs — on a loaded machine — is a timing flake like in any other step: its result
+			// lands in this step's outputs and would be missed by the `fire` step)
+			cs := strconv.FormatUint(c, 10)
+			own := len(f) > 2 && (f[0] == "approve" || f[0] == "deny") && f[2] == cs || len(f) > 6 && f[0] == "wr" && f[6] == cs
+			if sp := t.pend[c]; sp != nil && sp.short && !res.ok && !own {
 				t.early = true
 			}
 		}
